@@ -55,3 +55,27 @@ Theorem C20_instantiate_app : forall ph ty a b,
   instantiate ph ty (a ++ b) = instantiate ph ty a ++ instantiate ph ty b.
 Proof. exact instantiate_app. Qed.
 Print Assumptions C20_instantiate_app.
+
+(* the typed filtered nodes (CloneWithFilter, SubscribeWithFilter, the for-filter
+   forms after Refilter): restricting to the type and filtering commute *)
+Theorem C20_typed_list_filter_commute : forall k (f : obj -> bool) l,
+  typed_list k (filter f l) = filter f (typed_list k l).
+Proof. exact typed_list_filter_commute. Qed.
+Print Assumptions C20_typed_list_filter_commute.
+
+(* unitary handlers (ToUnitary): initialised only by exactly one object of the
+   type, which is then that object; every other callback as for a typed handler *)
+Theorem C20_unitary_init_iff : forall k objs,
+  unitary_callback k (TInit objs) <> [] <-> exists o, typed_list k objs = [o].
+Proof. exact unitary_init_iff. Qed.
+Print Assumptions C20_unitary_init_iff.
+
+Theorem C20_unitary_init_is_the_object : forall k objs o,
+  typed_list k objs = [o] -> unitary_callback k (TInit objs) = [TInit [o]] /\ o_kind o = k.
+Proof. exact unitary_init_is_the_object. Qed.
+Print Assumptions C20_unitary_init_is_the_object.
+
+Theorem C20_unitary_log_events : forall k l,
+  filter (fun c => negb (is_init c)) (unitary_log k l) = filter (fun c => negb (is_init c)) (typed_log k l).
+Proof. exact unitary_log_events. Qed.
+Print Assumptions C20_unitary_log_events.
